@@ -366,10 +366,21 @@ class C01(MergeFamProp):
             D(M({'_w': S(3), 'a': M({'_u': S(1), 'v': S(2)})})),                                   # D02 witness
             D(M({'a': Q([M({'x': Q([S(1), M({'y': Q([S(2)])})])})], kw={'del': False}), 'b': Sempty(kw={'prio': -1})}, kw={'safe': False})),
             D(M({1: S('i'), 1.5: S('f'), 'k': M({}, kw={'del': True}), 'e': Q([], kw={'new': True, 'md': [['note', 'x']]})})),
+            # a tagged node placed twice by an anchor / alias (seeded change S6-C01); outside the model: oracle only
+            {'docs': [{'raw': M({'a': Q([dict(S(1, kw={'prio': 1}), anchor='x'), {'alias': 'x'}, S(2)]), 'b': dict(M({'p': S(1)}, kw={'del': False}), anchor='y'), 'c': {'alias': 'y'}}), 'shared': True}],
+             'style': ['flow', 0, 0]},
         ]
+
+    P_SHARED = 0.08
 
     def gen_docs(self, rng, tier):
         d = {'raw': G.gen_doc(rng, self.VOCAB, self.DEPTH, self.PTAG)}
+        if rng.random() < self.P_SHARED:
+            # one node (preferably a TAGGED one) anchored and aliased: PyYAML gives the same data at both places, so must the config
+            # (seeded change S6-C01: duplicates dropped from evaluated lists); outside the model, oracle only
+            r = G.share_node(rng, d['raw'], need=(lambda n: bool(n.get('kw'))) if rng.random() < 0.7 else None)
+            if r is not None:
+                return [{'raw': r, 'shared': True}]
         if rng.random() < 0.5:
             d['auto'] = True       # handed over the way Config.build(src) does by default: raw_yaml=None (file name or YAML text is guessed)
         return [d]
@@ -383,19 +394,28 @@ class C01(MergeFamProp):
             return meta_impl(case)
         return super().impl(case)
 
+    def shared(self, case):
+        return any(d.get('shared') for d in case.get('docs', []))
+
     def model_requests(self, case):
         if case.get('kind') == 'meta':
             return meta_requests(case, meta_impl(case))
+        if self.shared(case):
+            return []
         return super().model_requests(case) + [{'op': 'erase', 'docs': case['docs']}]
 
     def model_obs(self, case, answers):
         if case.get('kind') == 'meta':
             return {'meta': answers}
+        if self.shared(case):
+            return {'shared': True}
         return super().model_obs(case, answers)
 
     def compare(self, case, io, mo):
         if case.get('kind') == 'meta':
             return meta_compare(case, io, mo['meta'])
+        if self.shared(case):
+            return 'SKIP'           # node sharing (YAML anchors / aliases) is outside the model's domain
         return super().compare(case, io, mo)
 
     def render(self, case):
@@ -461,7 +481,7 @@ class C01(MergeFamProp):
         d = first_diff(strip_ids(cfg['ok']), py_to_val(ref))
         if d:
             return 'evaluated config differs from yaml.load of the tag-erased text: ' + d
-        spec = ans[2]
+        spec = ans[2] if len(ans) > 2 else {}
         if 'ok' in spec:
             d = first_diff(strip_ids(cfg['ok']), spec['ok'][0])
             if d:
